@@ -24,7 +24,7 @@ PLAN["C07"] = dict(
     level="model_checking",
     functions=["hep::vegas_pdf<T>::vegas_pdf", "hep::vegas_icdf<T>", "hep::vegas_refine_pdf<T>",
                "hep::vegas_point<T>::vegas_point"],
-    bounds={"quick": "bins B<=3 (refine), B<=4 (icdf), dimensions d<=2; all grids, data>=0, alpha in [0,3], u in [0,1] symbolic",
+    bounds={"quick": "bins B<=4 (refine; 2 dimensions with B=2), B<=4 (icdf), dimensions d<=2; all grids, data>=0, alpha in [0,3], u in [0,1] symbolic",
             "thorough": "bins B<=4 (refine; B=5 single dimension), B<=5 (icdf), d<=2"},
     outside="larger B/d; rounding, overflow, signed zeros (exact extended reals)",
     assumptions=["exact extended-real arithmetic (no rounding/overflow)",
@@ -38,7 +38,7 @@ PLAN["C07"] = dict(
         S("h_vegas_pdf", dict(ob=1, B=2, d=1), REFINE_EXPECT),
         S("h_vegas_pdf", dict(ob=1, B=3, d=1), REFINE_EXPECT),
         S("h_vegas_pdf", dict(ob=1, B=2, d=2), REFINE_EXPECT),
-        S("h_vegas_pdf", dict(ob=1, B=4, d=1), REFINE_EXPECT, tiers=T),
+        S("h_vegas_pdf", dict(ob=1, B=4, d=1), REFINE_EXPECT),
         S("h_vegas_pdf", dict(ob=1, B=3, d=2), REFINE_EXPECT, tiers=T),
     ],
 )
@@ -106,7 +106,7 @@ KERNEL_Q = [
     S("h_mc_kernels", dict(ob=3, C=3, user=0), ["initial.uniform_default"]),
 ]
 KERNEL_T = [
-    S("h_mc_kernels", dict(ob=1, C=5, closed=1), ["select.never_a_disabled"], tiers=T),
+    S("h_mc_kernels", dict(ob=1, C=5, closed=1), ["select.never_a_disabled"]),
     S("h_mc_kernels", dict(ob=2, C=4), ["point.weight_is_jacobian"], tiers=T),
     S("h_mc_kernels", dict(ob=3, C=4, user=1), ["initial.normalised_user_weights"], tiers=T),
 ]
@@ -196,7 +196,7 @@ for nm in range(6):
 RESUME_Q.append(S("h_driver", drv(0, 1, n=1, cp=1, dist=1, fk=1, name=2), ["resume.final_text_identical"]))
 RESUME_Q.append(S("h_driver", drv(0, 2, n=1, cp=1, dist=1, fk=1, name=3), ["resume.final_text_identical"]))
 RESUME_T = [
-    S("h_driver", drv(0, 0, n=3, cp=1), ["resume.final_text_identical"], tiers=T),
+    S("h_driver", drv(0, 0, n=3, cp=1), ["resume.final_text_identical"]),
     S("h_driver", drv(0, 1, n=3, cp=1), ["resume.final_text_identical"], tiers=T),
     S("h_driver", drv(0, 2, n=3, cp=0), ["resume.final_text_identical"], tiers=T),
     S("h_driver", drv(0, 1, n=2, cp=1, B=3, user=1), ["resume.final_text_identical"], tiers=T),
@@ -230,7 +230,7 @@ ROLLBACK_JOBS += [
     S("h_driver", drv(3, 2, n=2, cp=1, hist=1, user=1), ["rollback.serialises_like"]),
     S("h_driver", drv(3, 1, n=2, cp=2, text=1, user=1), ["rollback.serialises_like"]),
     S("h_driver", drv(3, 2, n=2, cp=2, text=1, user=1), ["rollback.serialises_like"]),
-    S("h_driver", drv(3, 0, n=3, cp=1, text=1), ["rollback.serialises_like"], tiers=T),
+    S("h_driver", drv(3, 0, n=3, cp=1, text=1), ["rollback.serialises_like"]),
     S("h_driver", drv(3, 1, n=3, cp=1, text=1, user=1), ["rollback.serialises_like"], tiers=T),
     S("h_driver", drv(3, 2, n=3, cp=0, text=1, user=1), ["rollback.serialises_like"], tiers=T),
     S("h_driver", drv(3, 2, n=3, cp=0, text=0), ["rollback.serialises_like"], tiers=T),
@@ -334,7 +334,7 @@ HELPER_JOBS = [
     S("h_helpers", dict(ob=3, m=2, by=2), ["distributions.same_rule"]),
     S("h_helpers", dict(ob=4), ["create_result.variance"]),
     S("h_helpers", dict(ob=4, big=1), ["create_result.variance"]),
-    S("h_helpers", dict(ob=0, m=4), ["weighted.independent_of_the_order"], tiers=T, timeout_ms=300000),
+    S("h_helpers", dict(ob=0, m=4), ["weighted.independent_of_the_order"], timeout_ms=300000),
     S("h_helpers", dict(ob=1, m=4), ["equal.error_is_the_standard_error"], tiers=T),
     S("h_helpers", dict(ob=2, m=4), ["chi.documented_formula"], tiers=T, timeout_ms=300000),
     S("h_helpers", dict(ob=3, m=3), ["distributions.same_rule"], tiers=T),
